@@ -1,120 +1,35 @@
 /-
-  DDProofs.MddReach — exact counts under `incref` / `decref`, and the states reachable from
-  `MDD(dvars)` by successful calls (`find_or_add` with ordered successors, `ite`, `apply`,
-  `incref`, `decref` of a held reference, `collect_garbage`): all of them satisfy the invariant
-  and have exact counts for the ledger of references the user holds.
+  DDProofs.MddReach — the states reachable from `MDD(dvars)` by calls of the user: successful
+  ones (`find_or_add` with ordered successors, `ite`, `apply`, `incref`, `decref` of a held
+  reference, `collect_garbage`) AND failed ones, for EVERY behaviour of `_free.pop()`: the calls
+  that allocate run under an arbitrary recorded schedule `sch` of pops (installed before the call,
+  what is left dropped afterwards — as the driver does), and every choice the real `set.pop()`
+  can make is realised by some schedule (`mAllocate_accepts`).  All reachable states satisfy the
+  invariant, have exact counts for the ledger of references the user holds, and keys of `_ref`
+  that are nodes; a failed call leaves the state it found.
 -/
-import DDProofs.MddGc
+import DDProofs.MddLedger
+import DDProofs.MddErr
 open Std
 
 namespace DD
 
-/-- the ledger after taking one more reference to `u` -/
-def mExtInc (ext : Nat → Nat) (u : Int) : Nat → Nat := fun x => if x = u.natAbs then ext x + 1 else ext x
-/-- the ledger after releasing one reference to `u` -/
-def mExtDec (ext : Nat → Nat) (u : Int) : Nat → Nat := fun x => if x = u.natAbs then ext x - 1 else ext x
-
-theorem mIncref_exact (u : Int) (m : MddMgr) (ext : Nat → Nat) (hu : m.tbl.Mem u)
-    (hx : MRefExact m ext) (m' : MddMgr) (hi : mIncref u m = (.ok (), m')) :
-    MRefExact m' (mExtInc ext u) := by
-  unfold mIncref at hi
-  split at hi
-  · simp at hi
-  · next c hc =>
-    simp only [Prod.mk.injEq, true_and] at hi
-    subst hi
-    have hcnt := hx.cnt u.natAbs hu
-    rw [hc] at hcnt
-    simp only [Option.some.injEq] at hcnt
-    constructor
-    · intro x hxm
-      show (m.ref.insert u.natAbs (c + 1))[x]? = some (m.tbl.indeg (m.max + 1) x + mExtInc ext u x)
-      rw [natmap_getElem?_insert]
-      unfold mExtInc
-      by_cases hux : u.natAbs = x
-      · subst hux
-        simp only [if_true, Option.some.injEq]
-        omega
-      · have : ¬ x = u.natAbs := fun e => hux e.symm
-        simp only [hux, this, if_false]
-        exact hx.cnt x hxm
-    · intro x hx1 hxn
-      unfold mExtInc
-      have hne : ¬ x = u.natAbs := by
-        intro e; subst e
-        rcases hu with h1 | h1
-        · exact hx1 h1
-        · have : m.tbl.node? u.natAbs = none := hxn
-          rw [this] at h1; cases h1
-      simp only [hne, if_false]
-      exact hx.extZero x hx1 hxn
-
-theorem mDecref_exact (u : Int) (m : MddMgr) (ext : Nat → Nat) (hu : m.tbl.Mem u)
-    (hheld : 0 < ext u.natAbs)
-    (hx : MRefExact m ext) (m' : MddMgr) (hi : mDecref u m = (.ok (), m')) :
-    MRefExact m' (mExtDec ext u) := by
-  unfold mDecref at hi
-  split at hi
-  · simp at hi
-  · next c hc =>
-    have hcnt := hx.cnt u.natAbs hu
-    rw [hc] at hcnt
-    simp only [Option.some.injEq] at hcnt
-    split at hi
-    · omega
-    · simp only [Prod.mk.injEq, true_and] at hi
-      subst hi
-      constructor
-      · intro x hxm
-        show (m.ref.insert u.natAbs (c - 1))[x]? = some (m.tbl.indeg (m.max + 1) x + mExtDec ext u x)
-        rw [natmap_getElem?_insert]
-        unfold mExtDec
-        by_cases hux : u.natAbs = x
-        · subst hux
-          simp only [if_true, Option.some.injEq]
-          omega
-        · have : ¬ x = u.natAbs := fun e => hux e.symm
-          simp only [hux, this, if_false]
-          exact hx.cnt x hxm
-      · intro x hx1 hxn
-        unfold mExtDec
-        have hne : ¬ x = u.natAbs := by
-          intro e; subst e
-          rcases hu with h1 | h1
-          · exact hx1 h1
-          · have : m.tbl.node? u.natAbs = none := hxn
-            rw [this] at h1; cases h1
-        simp only [hne, if_false]
-        exact hx.extZero x hx1 hxn
-
-/-- a fresh `MDD(dvars)` has exact counts for the empty ledger -/
-theorem MRefExact.init (dv : List MVar) : MRefExact (MddMgr.new (some dv)) (fun _ => 0) := by
-  constructor
-  · intro u hu
-    have hnone : ∀ p, (MddMgr.new (some dv)).tbl.node? p = none := by
-      intro p; simp [MddMgr.new, MTbl.node?]
-    rcases hu with rfl | h1
-    · have : (MddMgr.new (some dv)).tbl.indeg ((MddMgr.new (some dv)).max + 1) 1 = 0 := by
-        unfold MTbl.indeg
-        simp [MddMgr.new, sumRange, MTbl.node?, edgesInto]
-      rw [this]
-      simp [MddMgr.new]
-    · rw [hnone u] at h1; cases h1
-  · intro _ _ _; rfl
-
-/-- states reachable from `MDD(dvars)` by successful calls, with the ledger of the references
-the user holds -/
+/-- states reachable from `MDD(dvars)`, with the ledger of the references the user holds -/
 inductive MReach (dv : List MVar) : MddMgr → (Nat → Nat) → Prop
   | init : MReach dv (MddMgr.new (some dv)) (fun _ => 0)
-  | foa {m ext} (i : Int) (nodes : List Int) (r : Int) (m' : MddMgr) :
+  /-- `find_or_add` (successors below the level), for any recorded pops `sch` -/
+  | foaS {m ext} (sch : List Nat) (i : Int) (nodes : List Int) (r : Int) (m1 : MddMgr) :
       MReach dv m ext → (∀ k ∈ nodes, i.toNat < m.tbl.levelOf k) →
-      mFindOrAdd i nodes m = (.ok r, m') → MReach dv m' ext
-  | ite {m ext} (g u v w : Int) (m' : MddMgr) :
-      MReach dv m ext → m.tbl.Mem g → m.tbl.Mem u → m.tbl.Mem v →
-      mIte g u v m = (.ok w, m') → MReach dv m' ext
-  | apply {m ext} (op : String) (c : Conn) (u : Int) (v w : Option Int) (r : Int) (m' : MddMgr) :
+      mFindOrAdd i nodes { m with sched := sch } = (.ok r, m1) →
+      MReach dv { m1 with sched := [] } ext
+  /-- any `ite` that returns, for any recorded pops -/
+  | iteS {m ext} (sch : List Nat) (g u v w : Int) (m1 : MddMgr) :
+      MReach dv m ext → mIte g u v { m with sched := sch } = (.ok w, m1) →
+      MReach dv { m1 with sched := [] } ext
+  | applyS {m ext} (sch : List Nat) (op : String) (c : Conn) (u : Int) (v w : Option Int) (r : Int)
+      (m1 : MddMgr) :
       MReach dv m ext → docConn op = some c →
-      mApply op u v w m = (.ok r, m') → MReach dv m' ext
+      mApply op u v w { m with sched := sch } = (.ok r, m1) → MReach dv { m1 with sched := [] } ext
   | incref {m ext} (u : Int) (m' : MddMgr) :
       MReach dv m ext → m.tbl.Mem u → mIncref u m = (.ok (), m') → MReach dv m' (mExtInc ext u)
   | decref {m ext} (u : Int) (m' : MddMgr) :
@@ -122,39 +37,152 @@ inductive MReach (dv : List MVar) : MddMgr → (Nat → Nat) → Prop
       mDecref u m = (.ok (), m') → MReach dv m' (mExtDec ext u)
   | gc {m ext} (roots : Option (List Int)) (m' : MddMgr) :
       MReach dv m ext → mCollectGarbage roots m = (.ok (), m') → MReach dv m' ext
+  /-- calls that raise, whatever their arguments (for `ite` / `apply`: anything but the model's own
+  report that the recorded pops do not fit, which is not a behaviour of the code) -/
+  | foaFail {m ext} (sch : List Nat) (i : Int) (nodes : List Int) (e : Err) (m1 : MddMgr) :
+      MReach dv m ext → mFindOrAdd i nodes { m with sched := sch } = (.error e, m1) →
+      MReach dv { m1 with sched := [] } ext
+  | iteFail {m ext} (sch : List Nat) (g u v : Int) (e : Err) (m1 : MddMgr) :
+      MReach dv m ext → mIte g u v { m with sched := sch } = (.error e, m1) → e ≠ .sched →
+      MReach dv { m1 with sched := [] } ext
+  | applyFail {m ext} (sch : List Nat) (op : String) (u : Int) (v w : Option Int) (e : Err)
+      (m1 : MddMgr) :
+      MReach dv m ext → mApply op u v w { m with sched := sch } = (.error e, m1) → e ≠ .sched →
+      MReach dv { m1 with sched := [] } ext
+  | increfFail {m ext} (u : Int) (e : Err) (m1 : MddMgr) :
+      MReach dv m ext → mIncref u m = (.error e, m1) → MReach dv m1 ext
+  | decrefFail {m ext} (u : Int) (e : Err) (m1 : MddMgr) :
+      MReach dv m ext → mDecref u m = (.error e, m1) → MReach dv m1 ext
+  | gcFail {m ext} (roots : Option (List Int)) (e : Err) (m1 : MddMgr) :
+      MReach dv m ext → mCollectGarbage roots m = (.error e, m1) → MReach dv m1 ext
 
-/-- every reachable state satisfies the invariant, has exact counts, and the variables given
-at construction -/
-theorem MReach.inv {dv : List MVar} {m : MddMgr} {ext : Nat → Nat} (h : MReach dv m ext) :
-    MInv m ∧ MRefExact m ext ∧ m.tbl.vars = dv := by
+/-- every reachable state satisfies the invariant, has exact counts, the variables given at
+construction, no stale key in `_ref`, and no recorded schedule left -/
+theorem MReach.all {dv : List MVar} {m : MddMgr} {ext : Nat → Nat} (h : MReach dv m ext) :
+    MInv m ∧ MRefExact m ext ∧ m.tbl.vars = dv ∧ RefKeys m ∧ m.sched = [] := by
   induction h with
-  | init => exact ⟨MInv.init dv, MRefExact.init dv, rfl⟩
-  | foa i nodes r m' _ hlt hr ih =>
-    obtain ⟨hi, hx, hv⟩ := ih
+  | init => exact ⟨MInv.init dv, MRefExact.init dv, rfl, RefKeys.init dv, rfl⟩
+  | foaS sch i nodes r m1 _ hlt hr ih =>
+    obtain ⟨hi, hx, hv, hk, hs⟩ := ih
+    have hk1 := mFindOrAdd_rk _ _ _ _ _ hr (hk.setSched sch)
     unfold mFindOrAdd at hr
     split at hr
     · simp at hr
-    · have F := mFindOrAddCore_spec _ hi i.toNat nodes hlt r m' hr
-      exact ⟨F.inv, F.exact _ hx, F.ext.vars.symm.trans hv⟩
-  | ite g u v w m' _ mg mu mv hr ih =>
-    obtain ⟨hi, hx, hv⟩ := ih
-    have I := mIte_spec _ hi g u v mg mu mv w m' hr
-    exact ⟨I.inv, I.exact _ hx, I.ext.vars.symm.trans hv⟩
-  | apply op c u v w r m' _ hc hr ih =>
-    obtain ⟨hi, hx, hv⟩ := ih
-    have A := mApply_spec _ hi op c hc u v w r m' hr
-    exact ⟨A.inv, A.exact _ hx, A.ext.vars.symm.trans hv⟩
+    · have F := mFindOrAddCore_spec _ (hi.setSched sch) i.toNat nodes hlt r m1 hr
+      exact ⟨F.inv.setSched [], (F.exact _ (hx.setSched sch)).setSched [], F.ext.vars.symm.trans hv,
+        hk1.setSched [], rfl⟩
+  | iteS sch g u v w m1 _ hr ih =>
+    obtain ⟨hi, hx, hv, hk, hs⟩ := ih
+    rcases mIte_ok_cases _ g u v w m1 hr with ⟨mg, mu, mv⟩ | heq
+    · have hk1 := mIte_rk _ _ _ _ _ _ hr (hk.setSched sch)
+      have I := mIte_spec _ (hi.setSched sch) g u v mg mu mv w m1 hr
+      exact ⟨I.inv.setSched [], (I.exact _ (hx.setSched sch)).setSched [], I.ext.vars.symm.trans hv,
+        hk1.setSched [], rfl⟩
+    · rw [heq, MddMgr.setSched_setSched_self _ hs]
+      exact ⟨hi, hx, hv, hk, hs⟩
+  | applyS sch op c u v w r m1 _ hc hr ih =>
+    obtain ⟨hi, hx, hv, hk, hs⟩ := ih
+    have hk1 := mApply_rk _ _ _ _ _ _ _ hr (hk.setSched sch)
+    have A := mApply_spec _ (hi.setSched sch) op c hc u v w r m1 hr
+    exact ⟨A.inv.setSched [], (A.exact _ (hx.setSched sch)).setSched [], A.ext.vars.symm.trans hv,
+      hk1.setSched [], rfl⟩
   | incref u m' _ hu hr ih =>
-    obtain ⟨hi, hx, hv⟩ := ih
+    obtain ⟨hi, hx, hv, hk, hs⟩ := ih
     have I := mIncref_inv u _ hi _ m' hr
-    exact ⟨I.1, mIncref_exact u _ _ hu hx m' hr, by rw [I.2]; exact hv⟩
+    exact ⟨I.1, mIncref_exact u _ _ hu hx m' hr, by rw [I.2]; exact hv, mIncref_rk _ _ _ _ hr hk,
+      by rw [mIncref_sched _ _ _ _ hr]; exact hs⟩
   | decref u m' _ hu hheld hr ih =>
-    obtain ⟨hi, hx, hv⟩ := ih
+    obtain ⟨hi, hx, hv, hk, hs⟩ := ih
     have I := mDecref_inv u _ hi _ m' hr
-    exact ⟨I.1, mDecref_exact u _ _ hu hheld hx m' hr, by rw [I.2]; exact hv⟩
+    exact ⟨I.1, mDecref_exact u _ _ hu hheld hx m' hr, by rw [I.2]; exact hv, mDecref_rk _ _ _ _ hr hk,
+      by rw [mDecref_sched _ _ _ _ hr]; exact hs⟩
   | gc roots m' _ hr ih =>
-    obtain ⟨hi, hx, hv⟩ := ih
+    obtain ⟨hi, hx, hv, hk, hs⟩ := ih
     have G := mddGc_spec _ _ hi hx roots m' hr
-    exact ⟨G.inv, G.exact, G.sub.vars.trans hv⟩
+    exact ⟨G.inv, G.exact, G.sub.vars.trans hv, mCollectGarbage_rk _ _ _ hr hk,
+      by rw [mCollectGarbage_sched _ _ _ _ hr]; exact hs⟩
+  | foaFail sch i nodes e m1 _ hr ih =>
+    obtain ⟨hi, hx, hv, hk, hs⟩ := ih
+    rw [mFindOrAdd_err _ (hi.setSched sch) i nodes e m1 hr, MddMgr.setSched_setSched_self _ hs]
+    exact ⟨hi, hx, hv, hk, hs⟩
+  | iteFail sch g u v e m1 _ hr he ih =>
+    obtain ⟨hi, hx, hv, hk, hs⟩ := ih
+    rw [mIte_err _ (hi.setSched sch) g u v e m1 hr he, MddMgr.setSched_setSched_self _ hs]
+    exact ⟨hi, hx, hv, hk, hs⟩
+  | applyFail sch op u v w e m1 _ hr he ih =>
+    obtain ⟨hi, hx, hv, hk, hs⟩ := ih
+    rw [mApply_err _ (hi.setSched sch) op u v w e m1 hr he, MddMgr.setSched_setSched_self _ hs]
+    exact ⟨hi, hx, hv, hk, hs⟩
+  | increfFail u e m1 _ hr ih => rw [mIncref_err u _ e m1 hr]; exact ih
+  | decrefFail u e m1 _ hr ih => rw [mDecref_err u _ e m1 hr]; exact ih
+  | gcFail roots e m1 _ hr ih =>
+    obtain ⟨hi, hx, hv, hk, hs⟩ := ih
+    rw [mCollectGarbage_err _ _ hi hx hk roots e m1 hr]
+    exact ⟨hi, hx, hv, hk, hs⟩
+
+theorem MReach.inv {dv : List MVar} {m : MddMgr} {ext : Nat → Nat} (h : MReach dv m ext) :
+    MInv m ∧ MRefExact m ext ∧ m.tbl.vars = dv :=
+  ⟨h.all.1, h.all.2.1, h.all.2.2.1⟩
+
+/-- in every reachable state the keys of `_ref` are nodes -/
+theorem MReach.refKeys {dv : List MVar} {m : MddMgr} {ext : Nat → Nat} (h : MReach dv m ext) :
+    RefKeys m := h.all.2.2.2.1
+
+/-- between calls no recorded schedule is left -/
+theorem MReach.sched_nil {dv : List MVar} {m : MddMgr} {ext : Nat → Nat} (h : MReach dv m ext) :
+    m.sched = [] := h.all.2.2.2.2
+
+/-! ### the calls without a recorded schedule (least-element pops) -/
+
+theorem MReach.foa {dv : List MVar} {m : MddMgr} {ext : Nat → Nat} (i : Int) (nodes : List Int)
+    (r : Int) (m' : MddMgr) (h : MReach dv m ext) (hlt : ∀ k ∈ nodes, i.toNat < m.tbl.levelOf k)
+    (hr : mFindOrAdd i nodes m = (.ok r, m')) : MReach dv m' ext := by
+  have hs := h.sched_nil
+  have hs' := mFindOrAdd_sched_nil _ _ _ _ _ hr hs
+  have := MReach.foaS [] i nodes r m' h hlt (by rw [MddMgr.setSched_self m hs]; exact hr)
+  rw [MddMgr.setSched_self m' hs'] at this
+  exact this
+
+theorem MReach.ite {dv : List MVar} {m : MddMgr} {ext : Nat → Nat} (g u v w : Int) (m' : MddMgr)
+    (h : MReach dv m ext) (hr : mIte g u v m = (.ok w, m')) : MReach dv m' ext := by
+  have hs := h.sched_nil
+  have hs' := mIte_ok_sched_nil m h.inv.1 hs g u v w m' hr
+  have := MReach.iteS [] g u v w m' h (by rw [MddMgr.setSched_self m hs]; exact hr)
+  rw [MddMgr.setSched_self m' hs'] at this
+  exact this
+
+theorem MReach.apply {dv : List MVar} {m : MddMgr} {ext : Nat → Nat} (op : String) (c : Conn) (u : Int)
+    (v w : Option Int) (r : Int) (m' : MddMgr) (h : MReach dv m ext) (hc : docConn op = some c)
+    (hr : mApply op u v w m = (.ok r, m')) : MReach dv m' ext := by
+  have hs := h.sched_nil
+  have hs' := mApply_ok_sched_nil m h.inv.1 hs op u v w r m' hr
+  have := MReach.applyS [] op c u v w r m' h hc (by rw [MddMgr.setSched_self m hs]; exact hr)
+  rw [MddMgr.setSched_self m' hs'] at this
+  exact this
+
+/-- a failed call (for `ite` / `apply`: anything but the model's schedule report) leaves the
+manager it found — the failing constructors of `MReach` add no state -/
+theorem MReach.failed_unchanged {dv : List MVar} {m : MddMgr} {ext : Nat → Nat} (h : MReach dv m ext)
+    (sch : List Nat) (e : Err) (m1 : MddMgr) :
+    (∀ i nodes, mFindOrAdd i nodes { m with sched := sch } = (.error e, m1) →
+      ({ m1 with sched := [] } : MddMgr) = m) ∧
+    (∀ g u v, mIte g u v { m with sched := sch } = (.error e, m1) → e ≠ .sched →
+      ({ m1 with sched := [] } : MddMgr) = m) ∧
+    (∀ op u v w, mApply op u v w { m with sched := sch } = (.error e, m1) → e ≠ .sched →
+      ({ m1 with sched := [] } : MddMgr) = m) ∧
+    (∀ u, mIncref u m = (.error e, m1) → m1 = m) ∧
+    (∀ u, mDecref u m = (.error e, m1) → m1 = m) ∧
+    (∀ roots, mCollectGarbage roots m = (.error e, m1) → m1 = m) := by
+  obtain ⟨hi, hx, _, hk, hs⟩ := h.all
+  refine ⟨?_, ?_, ?_, ?_, ?_, ?_⟩
+  · intro i nodes hr
+    rw [mFindOrAdd_err _ (hi.setSched sch) i nodes e m1 hr, MddMgr.setSched_setSched_self _ hs]
+  · intro g u v hr he
+    rw [mIte_err _ (hi.setSched sch) g u v e m1 hr he, MddMgr.setSched_setSched_self _ hs]
+  · intro op u v w hr he
+    rw [mApply_err _ (hi.setSched sch) op u v w e m1 hr he, MddMgr.setSched_setSched_self _ hs]
+  · intro u hr; exact mIncref_err u _ e m1 hr
+  · intro u hr; exact mDecref_err u _ e m1 hr
+  · intro roots hr; exact mCollectGarbage_err _ _ hi hx hk roots e m1 hr
 
 end DD
